@@ -2,6 +2,7 @@ import ThruVerif.Driver.Util
 import ThruVerif.Gen.Geometry
 import ThruVerif.Driver.CodecCmd
 import ThruVerif.Driver.SendFileCmd
+import ThruVerif.Driver.AdmissionCmd
 /-!
 `tvdriver`: one case per input line, one result per output line. The same lines are given to the Go
 harness, which runs the real code; the orchestrator diffs the two outputs.
@@ -25,6 +26,7 @@ def handle (line : String) : String :=
   | "enchdr" :: ws => handleEncHdr ws
   | "sf" :: ws => handleSf ws
   | "sched" :: ws => handleSched ws
+  | "adm" :: ws => handleAdm ws
   | _ => "bad-op"
 
 partial def loop (h : IO.FS.Stream) (out : IO.FS.Stream) : IO Unit := do
